@@ -15,13 +15,14 @@ static double nowS() { return std::chrono::duration<double>(std::chrono::steady_
 struct Lim { std::string dim; long L; std::vector<long> levels; };
 static std::vector<Lim> limits() {
     return {
-        {"param_description", 255, {254, 255, 256, 1000}}, {"param_name", 127, {126, 127, 128, 300}}, {"group_name", 127, {126, 127, 128, 300}},
-        {"dimension_entry", 255, {254, 255, 256, 1000}}, {"empty_string_count", 255, {254, 255, 256, 300}}, {"dimension_after_empty", 255, {254, 255, 256, 300}}, {"string_length", 255, {254, 255, 256, 1000}}, {"string_count", 255, {254, 255, 256, 1000}},
-        {"points", 255, {254, 255, 256, 300}}, {"channels", 255, {254, 255, 256, 300}}, {"frames", 32767, {32766, 32767, 32768, 70000}},
-        {"int_max", 32767, {32766, 32767, 32768, 100000}}, {"int_min", -32768, {-32767, -32768, -32769, -100000}}, {"param_blocks", 255, {254, 255, 256, 300}}, {"record_offset", 65535, {65534, 65535, 65536, 262144}},
+        // besides L-1, L, L+1 and far beyond: the values around the SIGNED boundary of the field that carries the quantity (127|128 on one byte, 32767|32768 on two)
+        {"param_description", 255, {127, 128, 254, 255, 256, 1000}}, {"param_name", 127, {126, 127, 128, 300}}, {"group_name", 127, {126, 127, 128, 300}},
+        {"dimension_entry", 255, {127, 128, 254, 255, 256, 1000}}, {"empty_string_count", 255, {127, 128, 254, 255, 256, 300}}, {"dimension_after_empty", 255, {127, 128, 254, 255, 256, 300}}, {"string_length", 255, {127, 128, 254, 255, 256, 1000}}, {"string_count", 255, {127, 128, 254, 255, 256, 1000}},
+        {"points", 255, {127, 128, 254, 255, 256, 300}}, {"channels", 255, {127, 128, 254, 255, 256, 300}}, {"frames", 32767, {32766, 32767, 32768, 70000}},
+        {"int_max", 32767, {32766, 32767, 32768, 100000}}, {"int_min", -32768, {-32767, -32768, -32769, -100000}}, {"param_blocks", 255, {127, 128, 254, 255, 256, 300}}, {"record_offset", 65535, {32767, 32768, 65534, 65535, 65536, 262144}},
     };
 }
-static std::string levelClass(const Lim& l, long v) { long a = std::labs(v), b = std::labs(l.L); return a < b ? "L-1" : a == b ? "L" : (a == b + 1 ? "L+1" : "beyond"); }
+static std::string levelClass(const Lim& l, long v) { long a = std::labs(v), b = std::labs(l.L); return a + 1 == b ? "L-1" : a < b ? "inside" : a == b ? "L" : (a == b + 1 ? "L+1" : "beyond"); }
 static bool within(const Lim& l, long v) { return std::labs(v) <= std::labs(l.L); }
 
 // applies one (dimension, value) to the object under construction; returns false if not constructible
@@ -40,7 +41,9 @@ static void applyLimit(Build& b, const std::string& dim, long v) {
     else if (dim == "param_blocks") b.wantBlocks = v;   // filled adaptively in finishAndCheck (the section length is only known from a save)
     else if (dim == "record_offset") {   // value of the record's 16-bit next-record offset = 5 + #dims + data bytes
         Param p("HUGE");
-        if (v == 65534) { std::vector<std::string> sv(2 * 163, std::string(201, 'h')); p.set(sv, {2, 163}); }
+        if (v == 32767) { std::vector<std::string> sv(195, std::string(168, 'h')); p.set(sv); }                   // 5 + 2 + 168 x 195
+        else if (v == 32768) { std::vector<std::string> sv(181, std::string(181, 'h')); p.set(sv); }              // 5 + 2 + 181 x 181
+        else if (v == 65534) { std::vector<std::string> sv(2 * 163, std::string(201, 'h')); p.set(sv, {2, 163}); }
         else if (v == 65535) { std::vector<std::string> sv(23 * 37, std::string(77, 'h')); p.set(sv, {23, 37}); }
         else if (v == 65536) { std::vector<std::string> sv(23 * 37, std::string(77, 'h')); p.set(sv, {23, 37, 1}); }
         else { std::vector<float> f(255 * 255, 2.5f); p.set(f, {255, 255}); }
